@@ -40,7 +40,7 @@ def run(ctx):
     plan = [(2, 300, 0, 600, 350, 'asan'), (3, 200, 20, 400, 300, 'rel'), (4, 300, 0, 500, 350, 'asan'), (8, 200, 0, 500, 300, 'rel'),
             (8, 400, 0, 700, 250, 'asan'), (16, 100, 0, 500, 150, 'rel'), (1, 0, 0, 300, 150, 'asan'), (4, 0, 0, 500, 300, 'rel'),
             (6, 500, 10, 800, 200, 'rel')]
-    mult = 90 if thorough else 1
+    mult = 50 if thorough else 1
     jobs = []
     for i, (w, y, yus, tight, rounds, fl) in enumerate(plan):
         exe = ctx.harness('c10_termdet', fl)
